@@ -408,8 +408,29 @@ def eval_monad_shape(a, backend):
             bknp.empty(len(y)) if isinstance(y, str) else (_a(y) if is_list(y) else _normalize_backend_array(y))
             for y in x
         ])
+    def _ragged(x): # the dimensions shared by all elements, e.g. [1 [2]] --> [2]
+        if isinstance(x, str):
+            return [len(x)]
+        if not is_list(x):
+            return []
+        subs = [_ragged(y) for y in x]
+        common = subs[0] if subs else []
+        for t in subs[1:]:
+            n = 0
+            while n < len(common) and n < len(t) and common[n] == t[n]:
+                n += 1
+            common = common[:n]
+        return [len(x)] + list(common)
+
     a = _normalize_backend_array(a)
-    return 0 if is_atom(a) else bknp.asarray([len(a)]) if isinstance(a, str) else bknp.asarray(_a(a).shape)
+    if is_atom(a):
+        return 0
+    if isinstance(a, str):
+        return bknp.asarray([len(a)])
+    try:
+        return bknp.asarray(_a(a).shape)
+    except ValueError: # not rectangular
+        return bknp.asarray(_ragged(a))
 
 
 def eval_monad_size(a, backend):
